@@ -53,6 +53,10 @@ pub enum Mutation {
     EnableTags(Vec<String>),
     DisableTags(Vec<String>),
     Optimize,
+    /// (engine scenarios) load the image of another rule list: every other rule of the world, reversed
+    Reload,
+    /// (engine scenarios) replace the resources by the listed subset of the world's resources
+    UseResources(Vec<usize>),
 }
 
 #[derive(Clone, Debug, Serialize, Deserialize)]
@@ -76,6 +80,14 @@ pub struct Scenario {
     /// "random" | "pct1" | "pct2" | "pct3"
     pub sched: String,
     pub sched_seed: u64,
+    /// true: long-lived worker threads query through `Arc<RwLock<..>>` read locks while a mutator thread
+    /// takes the write lock for the phases' mutations (threads of all phases are merged per index)
+    #[serde(default)]
+    pub rwlock: bool,
+    /// a second, independent engine (rules = every other rule of the world) queried concurrently by
+    /// its own threads in the first phase
+    #[serde(default)]
+    pub second_threads: Vec<Vec<Q>>,
     #[serde(default)]
     pub schedule: Option<String>,
     #[serde(default)]
@@ -154,12 +166,24 @@ pub fn generate(seed: u64) -> Scenario {
                 4 => Mutation::EnableTags(subset(&mut r)),
                 5 => Mutation::DisableTags(subset(&mut r)),
                 6 if blocker => Mutation::Optimize,
+                6 => Mutation::Reload,
+                7 if !blocker => {
+                    let mut v: Vec<usize> = (0..w.resources.len()).filter(|_| r.chance(60)).collect();
+                    r.shuffle(&mut v);
+                    Mutation::UseResources(v)
+                }
                 _ => Mutation::UseTags(subset(&mut r)),
             }
         };
         phases.push(Phase { threads, then });
     }
     let tags: Vec<String> = w.tags.iter().filter(|_| r.chance(50)).cloned().collect();
+    let rwlock = r.chance(35);
+    let second_threads: Vec<Vec<Q>> = if r.chance(25) {
+        (0..r.range(1, 2)).map(|_| (0..r.range(1, 4)).map(|_| Q::Net(r.below(w.probes.len()))).collect()).collect()
+    } else {
+        vec![]
+    };
     let sched = match r.below(6) {
         0..=2 => "random",
         3 => "pct1",
@@ -179,6 +203,8 @@ pub fn generate(seed: u64) -> Scenario {
         clock_step: *r.pick(&[1u64, 1, 1000, 1_000_000_000]),
         sched,
         sched_seed: r.next(),
+        rwlock,
+        second_threads,
         schedule: None,
         violation: None,
         note: String::new(),
@@ -197,22 +223,51 @@ fn _assertions() {
 }
 
 fn build_shared(sc: &Scenario) -> Shared {
+    build_shared_rules(sc, &sc.world.rules)
+}
+
+/// The second engine of a scenario: every other rule of the world, no tags.
+fn second_rules(sc: &Scenario) -> Vec<Rule> {
+    sc.world.rules.iter().step_by(2).cloned().collect()
+}
+
+fn build_shared_rules(sc: &Scenario, rules: &[Rule]) -> Shared {
     let w = &sc.world;
     let tv: Vec<&str> = sc.tags.iter().map(|s| s.as_str()).collect();
     let pol = RegexManagerDiscardPolicy { cleanup_interval: Duration::from_nanos(sc.policy.0), discard_unused_time: Duration::from_nanos(sc.policy.1) };
     if sc.blocker {
-        let filters = parse_net(&w.rules, w.knobs.debug, None);
+        let filters = parse_net(rules, w.knobs.debug, None);
         let mut b = Blocker::new(filters, &BlockerOptions { enable_optimizations: w.knobs.optimize });
         b.use_tags(&tv);
         b.set_regex_discard_policy(pol);
         Shared::Blocker(b, ResourceStorage::from_resources(w.resources.iter().map(to_resource)))
     } else {
-        let fs = build_filter_set(&w.rules, w.knobs.debug, 0, None);
+        let fs = build_filter_set(rules, w.knobs.debug, 0, None);
         let mut e = Engine::from_filter_set(fs, w.knobs.optimize);
         e.use_resources(w.resources.iter().map(to_resource));
         e.use_tags(&tv);
         e.set_regex_discard_policy(pol);
         Shared::Engine(e)
+    }
+}
+
+fn reload_image(sc: &Scenario) -> Vec<u8> {
+    let rules: Vec<Rule> = sc.world.rules.iter().rev().step_by(2).cloned().collect();
+    let fs = build_filter_set(&rules, sc.world.knobs.debug, 0, None);
+    Engine::from_filter_set(fs, sc.world.knobs.optimize).serialize_raw().unwrap_or_default()
+}
+
+fn mutate_sc(s: &mut Shared, m: &Mutation, sc: &Scenario) {
+    match (s, m) {
+        (Shared::Engine(e), Mutation::Reload) => {
+            let b = reload_image(sc);
+            let _ = seams::track(|| e.deserialize(&b));
+        }
+        (Shared::Engine(e), Mutation::UseResources(idx)) => {
+            let rs: Vec<ResSpec> = idx.iter().filter_map(|i| sc.world.resources.get(*i).cloned()).collect();
+            e.use_resources(rs.iter().map(to_resource));
+        }
+        (s, m) => mutate(s, m),
     }
 }
 
@@ -228,6 +283,7 @@ fn mutate(s: &mut Shared, m: &Mutation) {
         (Shared::Blocker(b, _), Mutation::EnableTags(t)) => b.enable_tags(&tv(t).iter().map(|x| x.as_str()).collect::<Vec<_>>()),
         (Shared::Blocker(b, _), Mutation::DisableTags(t)) => b.disable_tags(&tv(t).iter().map(|x| x.as_str()).collect::<Vec<_>>()),
         (Shared::Blocker(b, _), Mutation::Optimize) => b.optimize(),
+        (_, Mutation::Reload) | (_, Mutation::UseResources(_)) => {}
     })
 }
 
@@ -281,6 +337,26 @@ fn scenario_body(sc: Arc<Scenario>) {
     // thread exists; the shared engine's rules live in the simulated allocator region
     let mut twin = build_shared(&sc);
     let mut shared = seams::track(|| build_shared(&sc));
+    if sc.rwlock {
+        scenario_rwlock(&sc, twin, shared, &reqs);
+        let _ = seams::run_end();
+        return;
+    }
+    // optional second engine with its own threads (first phase only)
+    let second: Option<(Arc<Shared>, Arc<BTreeMap<String, String>>)> = if sc.second_threads.is_empty() {
+        None
+    } else {
+        let rules2 = second_rules(&sc);
+        let twin2 = build_shared_rules(&sc, &rules2);
+        let mut exp2: BTreeMap<String, String> = BTreeMap::new();
+        for t in &sc.second_threads {
+            for q in t {
+                exp2.entry(format!("{:?}", q)).or_insert_with(|| answer(&twin2, q, &sc.world, &reqs));
+            }
+        }
+        drop(twin2);
+        Some((Arc::new(seams::track(|| build_shared_rules(&sc, &rules2))), Arc::new(exp2)))
+    };
     for (pi, phase) in sc.phases.iter().enumerate() {
         let mut expected: BTreeMap<String, String> = BTreeMap::new();
         for t in &phase.threads {
@@ -309,6 +385,27 @@ fn scenario_body(sc: Arc<Scenario>) {
                 }
             }));
         }
+        if pi == 0 {
+            if let Some((eng2, exp2)) = &second {
+                for (ti, qs) in sc.second_threads.iter().enumerate() {
+                    let eng2 = eng2.clone();
+                    let exp2 = exp2.clone();
+                    let sc2 = sc.clone();
+                    let reqs = reqs.clone();
+                    let qs = qs.clone();
+                    hs.push(shuttle::thread::spawn(move || {
+                        // twice: the second time compiled regexes have been discarded and are resolved again
+                        for round in 0..2 {
+                            for (qi, q) in qs.iter().enumerate() {
+                                let got = answer(&eng2, q, &sc2.world, &reqs);
+                                let want = &exp2[&format!("{:?}", q)];
+                                assert!(&got == want, "C19-ANSWER second engine thread {} round {} query {} {:?}: concurrent answer [{}] != sequential answer [{}]", ti, round, qi, q, got, want);
+                            }
+                        }
+                    }));
+                }
+            }
+        }
         for h in hs {
             h.join().expect("C19-JOIN a query thread panicked");
         }
@@ -321,12 +418,85 @@ fn scenario_body(sc: Arc<Scenario>) {
         for q in phase.threads.iter().flatten().take(3) {
             let _ = answer(&shared, q, &sc.world, &reqs);
         }
-        mutate(&mut twin, &phase.then);
-        mutate(&mut shared, &phase.then);
+        mutate_sc(&mut twin, &phase.then, &sc);
+        mutate_sc(&mut shared, &phase.then, &sc);
     }
     drop(shared);
     drop(twin);
     let _ = seams::run_end();
+}
+
+struct Guarded {
+    shared: Shared,
+    epoch: usize,
+}
+
+/// Long-lived workers query under read locks while a mutator thread applies the phases' mutations
+/// under the write lock. Every answer is compared with the sequential twin *at the same epoch*.
+fn scenario_rwlock(sc: &Arc<Scenario>, mut twin: Shared, shared: Shared, reqs: &Arc<Vec<Option<Request>>>) {
+    let n_workers = sc.phases.iter().map(|p| p.threads.len()).max().unwrap_or(0);
+    let mut worker_qs: Vec<Vec<Q>> = vec![vec![]; n_workers];
+    for p in &sc.phases {
+        for (i, t) in p.threads.iter().enumerate() {
+            worker_qs[i].extend(t.iter().filter(|q| is_observation(q)).cloned());
+        }
+    }
+    let muts: Vec<Mutation> = sc.phases.iter().map(|p| p.then.clone()).filter(|m| *m != Mutation::None).collect();
+    let lock = Arc::new(shuttle::sync::RwLock::new(Guarded { shared, epoch: 0 }));
+    let observed: Arc<shuttle::sync::Mutex<Vec<(usize, String, String)>>> = Arc::new(shuttle::sync::Mutex::new(vec![]));
+    let mut hs = vec![];
+    for qs in worker_qs.iter().cloned() {
+        let lock = lock.clone();
+        let observed = observed.clone();
+        let sc2 = sc.clone();
+        let reqs = reqs.clone();
+        hs.push(shuttle::thread::spawn(move || {
+            // every worker goes through its list twice, so that it queries again after mutations
+            for _round in 0..2 {
+                for q in qs.iter() {
+                    let g = lock.read().expect("C19-POISON read lock poisoned");
+                    let got = answer(&g.shared, q, &sc2.world, &reqs);
+                    let ep = g.epoch;
+                    drop(g);
+                    observed.lock().unwrap().push((ep, format!("{:?}", q), got));
+                }
+            }
+        }));
+    }
+    {
+        let lock = lock.clone();
+        let muts2 = muts.clone();
+        let sc3 = sc.clone();
+        hs.push(shuttle::thread::spawn(move || {
+            for (k, m) in muts2.iter().enumerate() {
+                let mut g = lock.write().expect("C19-POISON write lock poisoned");
+                mutate_sc(&mut g.shared, m, &sc3);
+                g.epoch = k + 1;
+            }
+        }));
+    }
+    for h in hs {
+        h.join().expect("C19-JOIN a thread panicked");
+    }
+    assert!(vh::section_overlaps() == 0, "C19-OVERLAP two threads were inside the same regex manager at the same time ({} overlaps)", vh::section_overlaps());
+    // sequential reference: the twin answers every observed query at every epoch
+    let obs = observed.lock().unwrap().clone();
+    let mut expected: Vec<BTreeMap<String, String>> = vec![];
+    let all_qs: Vec<Q> = worker_qs.iter().flatten().cloned().collect();
+    for k in 0..=muts.len() {
+        let mut m: BTreeMap<String, String> = BTreeMap::new();
+        for q in &all_qs {
+            m.entry(format!("{:?}", q)).or_insert_with(|| answer(&twin, q, &sc.world, reqs));
+        }
+        expected.push(m);
+        if k < muts.len() {
+            mutate_sc(&mut twin, &muts[k], sc);
+        }
+    }
+    for (ep, q, got) in obs {
+        let want = &expected[ep][&q];
+        assert!(&got == want, "C19-ANSWER (rwlock) query {} at epoch {}: concurrent answer [{}] != sequential answer [{}]", q, ep, got, want);
+    }
 }
 
 pub struct ExecOut {
@@ -591,6 +761,8 @@ fn main() {
                 add("mutations_between_phases", sc.phases.iter().filter(|p| p.then != Mutation::None).count() as u64);
                 add(&format!("scheduler_{}", sc.sched), 1);
                 add(if sc.blocker { "shared_blocker_runs" } else { "shared_engine_runs" }, 1);
+                add("rwlock_scenarios", sc.rwlock as u64);
+                add("scenarios_with_second_engine", (!sc.second_threads.is_empty() && !sc.rwlock) as u64);
                 for (i, n) in vh::PROBE_NAMES.iter().enumerate() {
                     add(&format!("probe_{}", n), o.probes[i]);
                 }
